@@ -179,6 +179,59 @@ func (p *c10) Run(tier string, seed int64, idx int) core.CaseResult {
 		c10Compare(nm, yang.Render(nm, yang.CanonicalLayout()), "names-canonical", &res)
 		c10Compare(nm, yang.Render(nm, &yang.Layout{R: r, Quote: 1, Trivia: 1, Boundary: -1}), "random-names", &res)
 	}
+	if idx == 2 {
+		// the same quoted text with a line break, written at eight depths without re-indenting its continuation lines:
+		// how much of their indentation belongs to the value depends on the column of the opening quote of each
+		var b strings.Builder
+		line := 1
+		put := func(txt string) {
+			b.WriteString(txt)
+			line += strings.Count(txt, "\n")
+		}
+		mk := func(kw, arg string, col int) *yang.Stmt {
+			st := yang.S(kw, arg)
+			st.Line, st.Col = line, col
+			return st
+		}
+		for _, raw := range []string{"Line one\n" + strings.Repeat(" ", 19) + "indented\n    x", "a\n" + strings.Repeat(" ", 30) + "b\n" + strings.Repeat(" ", 16) + "c"} {
+			b.Reset()
+			line = 1
+			root := mk("module", "m", 0)
+			put("module m {\n")
+			root.Add(mk("namespace", "urn:m", 2))
+			put("  namespace \"urn:m\";\n")
+			root.Add(mk("prefix", "m", 2))
+			put("  prefix m;\n")
+			cur := root
+			for d := 1; d <= 8; d++ {
+				ind := strings.Repeat(" ", 2*d)
+				c := mk("container", fmt.Sprintf("c%d", d), 2*d)
+				put(ind + fmt.Sprintf("container c%d {\n", d))
+				cur.Add(c)
+				cur = c
+				q := 2*(d+1) + len("description ") // column of the opening quote
+				var val []string
+				for i, l := range strings.Split(raw, "\n") {
+					if i > 0 {
+						n := 0
+						for n < len(l) && n <= q && l[n] == ' ' {
+							n++
+						}
+						l = l[n:]
+					}
+					val = append(val, l)
+				}
+				c.Add(mk("description", strings.Join(val, "\n"), 2*(d+1)))
+				put(ind + "  description \"" + raw + "\";\n")
+			}
+			for d := 8; d >= 1; d-- {
+				put(strings.Repeat(" ", 2*d) + "}\n")
+			}
+			put("}\n")
+			res.Ev("texts_with_one_quoted_text_at_several_depths", 1)
+			c10Compare(root, b.String(), "depths-same-text", &res)
+		}
+	}
 	// canonical
 	lay := yang.CanonicalLayout()
 	text := yang.Render(root, lay)
